@@ -44,7 +44,7 @@ PROPS = {
  "C11": dict(jobs=[CORPUS, chain("fault", 50, 800), chain("settle", 20, 300)], rule=NONTRIVIAL + "; fault histories fail the k-th backend call of a block",
              assumptions=BASE_ASSUME + ["real ERC-20 internals are replaced by a stub that fails at the injected position"]),
  "C12": dict(jobs=[CORPUS, chain("settle", 40, 600), chain("admin", 15, 200), pure(600, 15000)], rule=NONTRIVIAL, assumptions=BASE_ASSUME),
- "C13": dict(jobs=[CORPUS, chain("isolate", 25, 400, isolate=True), chain("fault", 10, 200)],
+ "C13": dict(jobs=[CORPUS, chain("isolate", 25, 400, isolate=True), chain("fault", 10, 200), ante(8, 120, isolate=True)],
              rule=NONTRIVIAL + "; every history is re-executed once per tenant with the other tenants' activity removed and the tenant's projection compared",
              assumptions=BASE_ASSUME + ["treasury addresses of distinct tenants are assumed distinct (truncated SHA-256)"]),
  "C14": dict(jobs=[CORPUS, chain("oracle", 40, 600), chain("settle", 15, 300), ante(15, 250), chain("oracle", 25, 400, cr=0)], rule=NONTRIVIAL + "; the ante engine evaluates every invariant registered with the crisis keeper after each real block",
